@@ -254,7 +254,7 @@ var specSpin = pbt.Register(&pbt.Spec[PCase]{
 		}
 		return c
 	},
-	Run: RunSpin, Quick: 40, Thorough: 2000, Crashy: true, Retries: 20, CaseCPU: 120e9,
+	Run: RunSpin, Quick: 40, Thorough: 400, Crashy: true, Retries: 20, CaseCPU: 120e9,
 	Assumes: []string{"free-running schedules are chosen by the Go runtime; windows are hit by repetition only"},
 })
 
